@@ -220,8 +220,9 @@ def _raw(x):
 class MergedFMD:
     """drop-in replacement for find_minimal_distance while a symbolic path runs"""
 
-    def __init__(self, real_fn):
+    def __init__(self, real_fn, max_len=8):
         self.real = real_fn
+        self.max_len = max_len
         self.ok = True
         self.reason = ""
         self.calls_merged = 0
@@ -233,7 +234,8 @@ class MergedFMD:
             self.reason = f"{type(ex).__name__}: {ex}"
 
     def __call__(self, element, collection):
-        if not self.ok or not (core.is_sym(element) or any(core.is_sym(c) for c in collection)):
+        if not self.ok or len(collection) > self.max_len \
+                or not (core.is_sym(element) or any(core.is_sym(c) for c in collection)):
             return self.real(element, collection)
         try:
             t = self.summary.term(_raw(element), [_raw(c) for c in collection])
